@@ -1,5 +1,6 @@
 import VaxisModel.Lemmas.InputQuery
 import VaxisModel.Lemmas.QueryBody
+import VaxisModel.Lemmas.RequesterBody
 import VaxisModel.Model.InputLoop
 
 /-!
@@ -114,6 +115,32 @@ theorem colorOfReply_is_body (resp pfx : List Nat) :
     simp only []
     rcases splitOn 47 rest with _ | ⟨a, _ | ⟨b, _ | ⟨c, _ | ⟨d, t⟩⟩⟩⟩ <;> try rfl
     cases ha : parseChannel a <;> cases hb : parseChannel b <;> cases hc : parseChannel c <;> simp [ha, hb, hc]
+
+/-! ## The three requesters interpreted from the source (round 4) -/
+
+open VaxisModel.Model.RequesterBody in
+/-- The regenerated bodies of `QueryColor`, `QueryForeground`, `QueryBackground` contain no node the
+translator did not know. -/
+theorem requester_bodies_recognised :
+    Gen.InputBody.qc.clean = true ∧ Gen.InputBody.qf.clean = true ∧ Gen.InputBody.qb.clean = true := by decide
+
+open VaxisModel.Model.RequesterBody in
+/-- **`QueryColor` run on its regenerated body = the model**, for every state of the capability,
+every colour asked for and every payload its receive returns: without the capability, for an RGB
+colour and for the default colour it returns at once without touching the terminal; otherwise it
+drops a stale reply (non-blocking receive), writes `OSC 4 ; idx ; ?`, receives exactly once and
+returns `colorOfReply` of what it received with the prefix `4;idx;` (through the regenerated body
+of `parseColorReply`). -/
+theorem queryColor_body_eq_model (can : Bool) (c : Color) (resp : List Nat) :
+    runReq Gen.InputBody.qc ⟨can, params c, resp⟩ c = .ok (queryColorModel can c resp) :=
+  VaxisModel.Lemmas.RequesterBody.qc_eq can c resp
+
+open VaxisModel.Model.RequesterBody in
+/-- The same for `QueryForeground` (`OSC 10`, prefix `10;`) and `QueryBackground` (`OSC 11`, `11;`). -/
+theorem queryFgBg_body_eq_model (can : Bool) (ps resp : List Nat) (c : Color) :
+    runReq Gen.InputBody.qf ⟨can, ps, resp⟩ c = .ok (queryFgBgModel can "vx.chFg" "osc10" litFg resp) ∧
+    runReq Gen.InputBody.qb ⟨can, ps, resp⟩ c = .ok (queryFgBgModel can "vx.chBg" "osc11" litBg resp) :=
+  ⟨VaxisModel.Lemmas.RequesterBody.qf_eq can ps resp c, VaxisModel.Lemmas.RequesterBody.qb_eq can ps resp c⟩
 
 /-! ## The hand-off of the reply (LTS) -/
 
